@@ -13,5 +13,7 @@ open ColumnVerif.Skel
 theorem dict_version_matches : ColumnVerif.Generated.dictVersion = expectedDictVersion := by decide +kernel
 theorem flag_appendCopyShareMutex : appendCopyShareMutex = true := by decide +kernel
 theorem flag_restoreFiltersById : restoreFiltersById = true := by decide +kernel
+/-- the chunk states a snapshot file holds are read under the chunk's read latch: none of them is a half-applied commit -/
+theorem flag_snapReadLocked : snapReadLocked = true := by decide +kernel
 
 end ColumnVerif.Props.C13skel
